@@ -174,6 +174,21 @@ def run(ck):
                 bad = fixed_closed(mk, x0f, T, exact, gridded)
                 if bad:
                     ck.violation("stochastic-total-changes" + ("-on-grid" if gridded else ""), "%s model, exact=%s: %s" % (name, exact, bad), inp)
+    # ---- a user-fixed leap size that does not divide the horizon (the last leap overshoots or is cut back: whole events all the same)
+    for name, (mk, x0f, T) in FIXED.items():
+        for gridded in (False, True):
+            inp = dict(kind="fixed-closed", name=name, exact=False, gridded=gridded, pre_tau=T * 0.0907)
+            ck.case(inp, nontrivial=True)
+            bad = fixed_closed(mk, x0f, T, False, gridded, pre_tau=inp["pre_tau"])
+            if bad:
+                ck.violation("stochastic-total-changes/fixed-step", "%s model, fixed leap of %g over a horizon of %g: %s" % (name, inp["pre_tau"], T, bad), inp)
+    # ---- deterministic: states declared with limits and a rate that does not vanish when its origin is empty
+    for ent in ("integrate", "solve_determ", "integrate2"):
+        inp = dict(kind="det-limits", entry=ent)
+        ck.case(inp, nontrivial=True)
+        bad = det_limits_check(ent)
+        if bad:
+            ck.violation("deterministic-total-drifts/declared-limits", bad, inp)
     ck.notes["max_relative_total_drift_deterministic"] = worst
     ck.assumptions += ["deterministic conservation is judged at 1e-6 relative (odeint tolerance 1.5e-8); stochastic totals exactly"]
 
@@ -195,9 +210,31 @@ def _ceiling():
 FIXED = {"sixty-million": (_sixty_million, [59999000.0, 1000.0, 0.0], 0.02), "ceiling": (_ceiling, [200.0, 10.0, 20.0], 3.0)}
 
 
-def fixed_closed(mk, x0, T, exact, gridded):
+def det_limits_check(entry):
+    """S -> V at the constant rate nu, both states declared with limits (0, None): S(t) = 15 - nu t, V(t) = nu t, S + V = 15 for
+    every t of the solution (the ODE does not stop at S = 0; a conserved total is conserved all the same)"""
+    import pg
+    m = pg.model(state=[("S", (0, None)), ("V", (0, None))], param=["nu"],
+                 event=[pg.Event(rate="nu", transition_list=[pg.Transition(origin="S", destination="V", transition_type="T")])])
+    m.parameters = {"nu": 1.0}
+    m.initial_values = ([15.0, 0.0], np.float64(0))
+    tt = np.array([5.0, 10.0, 14.0, 16.0, 20.0])
+    try:
+        with pg.quiet():
+            sol = np.asarray(getattr(m, entry)(tt), dtype=float)
+    except Exception as e:      # noqa: BLE001
+        return "%s raised %s: %s" % (entry, type(e).__name__, str(e)[:120])
+    tots = sol.sum(axis=1)
+    if not np.all(np.abs(tots - 15.0) <= 1e-6 * 16):
+        return "%s: S -> V at constant rate, states declared with limits (0, None): the totals of the solution rows are %s (start 15)" % (entry, np.round(tots, 6).tolist())
+    return None
+
+
+def fixed_closed(mk, x0, T, exact, gridded, pre_tau=None):
     import pg
     m = mk()
+    if pre_tau is not None:
+        m.pre_tau = pre_tau
     m.parameters = {"b": 1.5, "g": 0.5}
     m.initial_values = (list(x0), np.float64(0))
     np.random.seed(77)
@@ -229,7 +266,9 @@ def replay(ck, data):
     if inp.get("kind") == "fixed-closed":
         import pg
         mk, x0, T = FIXED[inp["name"]]
-        return fixed_closed(mk, x0, T, inp["exact"], inp["gridded"])
+        return fixed_closed(mk, x0, T, inp["exact"], inp["gridded"], pre_tau=inp.get("pre_tau"))
+    if inp.get("kind") == "det-limits":
+        return det_limits_check(inp["entry"])
     if inp.get("kind") == "slow-last-step":
         import pg
         mc = pg.model(state=["A", "B", "C"], param=["r1", "r2"],
